@@ -271,6 +271,14 @@ def coll_shards(seed, tier, workload, iters_q, iters_t, ops, extra=None, miri_q=
     return out
 
 
+def trait_shards(seed, tier):
+    """trait surface on concrete element types (Hash/Ord/Debug/eq forms/Borrow/iterator structs/error types), vs std"""
+    q = tier == "quick"
+    out = [sh(e, "traitsurf", seed, 800 + i, iters=(3000 if q else 100000)) for i, e in enumerate(("debug", "release"))]
+    out.append(sh("miri", "traitsurf", seed, 810, timeout=1500, iters=(12 if q else 150)))
+    return out
+
+
 ASSUME_COLL = [
     "std::vec::Vec / std::string::String / std::boxed::Box of the installed toolchain (rustc 1.95) are the reference model",
     "requests that std would answer by aborting (real allocation failure) are not generated; lying size_hints are not used; panic messages, drop order and exact capacities are not compared",
@@ -281,9 +289,9 @@ ASSUME_COLL = [
 def plan_C13(tier, seed):
     return dict(level="exploration",
                 rule=("one evaluation = one random program (150 ops) over 5 bumpalo Vecs (u8,u64,[u8;24],(),Tracked) sharing one arena with a String, Boxes and raw canaries, each Vec mirrored by a std Vec and compared after every op "
-                      "(outcome class, returned values, contents, length, capacity promises); distinct = distinct op-sequence hashes"),
-                shards=coll_shards(seed, tier, "vecdiff", 400, 3000, 150),
-                require={"c13.ops": 50000, "c13.ops_panicking_on_both_sides": 3000, "c13.neighbour_checks": 5000, "vop.drain": 1000, "vop.splice": 1000, "vop.drain_filter": 500, "vop.into_iter": 500},
+                      "(outcome class, returned values, contents, length, capacity promises), plus trait-surface cases on concrete element types (Hash, Ord, Debug with flags, every PartialEq operand form, Extend<&T>, Borrow/AsMut, IntoIter/Drain/Splice/DrainFilter auxiliary methods) against std; distinct = distinct op-sequence hashes"),
+                shards=coll_shards(seed, tier, "vecdiff", 400, 3000, 150) + trait_shards(seed, tier),
+                require={"traits.comparisons": 100000, "c13.ops": 50000, "c13.ops_panicking_on_both_sides": 3000, "c13.neighbour_checks": 5000, "vop.drain": 1000, "vop.splice": 1000, "vop.drain_filter": 500, "vop.into_iter": 500},
                 assumptions=ASSUME_COLL)
 
 
@@ -328,10 +336,11 @@ def plan_C14(tier, seed):
             shards.append(sh("release", "strdiff", seed, 900 + part, timeout=3000, decoders=1, exh=4, part=part, parts=16, random=20000))
         shards.append(sh("debug", "strdiff", seed, 950, timeout=900, decoders=1, exh=3))
     shards.append(sh("miri", "strdiff", seed, 960, timeout=1500, decoders=1, exh=1, random=(20 if q else 100), parts=64, part=seed % 64))
+    shards += trait_shards(seed, tier)
     return dict(level="exploration",
                 rule=("one evaluation = one random String program (120 ops over 1-4 byte characters with every byte index 0..=len+2 and all range forms, mirrored by std::string::String, UTF-8 validity checked after every op including panicking ones) "
                       "or one decoder input (from_utf8 / from_utf8_lossy_in / from_utf16_in compared with std): all byte strings up to length 3 (quick) or 4 (thorough) exhaustively, structured lead/continuation/truncation grid, random corrupted text, UTF-16 boundary classes; distinct = distinct op-sequence hashes"),
-                shards=shards, require={"c14.ops": 50000, "c14.ops_panicking_on_both_sides": 10000, "c14.decoder_exhaustive_inputs": 16000000, "c14.decoder_structured_inputs": 200000, "sop.replace_range": 3000, "sop.drain": 3000, "sop.insert": 3000},
+                shards=shards, require={"traits.comparisons": 100000, "c14.ops": 50000, "c14.ops_panicking_on_both_sides": 10000, "c14.decoder_exhaustive_inputs": 16000000, "c14.decoder_structured_inputs": 200000, "sop.replace_range": 3000, "sop.drain": 3000, "sop.insert": 3000},
                 assumptions=ASSUME_COLL)
 
 
@@ -339,6 +348,6 @@ def plan_C17(tier, seed):
     return dict(level="exploration",
                 rule=("one evaluation = one random program of 60 Box scenarios (16 kinds: comparison/hash/fmt against std::boxed::Box, drop ledger around drop/into_inner/into_raw/from_raw/leak/pin_in/downcast hit+miss, "
                       "array<->slice<->Vec conversions, boxed iterators/futures/hashers, arena accounting and allocator events around every drop); distinct = distinct scenario-sequence hashes"),
-                shards=coll_shards(seed, tier, "boxdiff", 400, 4000, 60, miri_q=1, miri_t=6, asan_t=3, miri_ops=30, miriflags=""),
-                require={"c17.monitored_drops": 10000, "c15.box_drop_checks": 10000},
+                shards=coll_shards(seed, tier, "boxdiff", 400, 4000, 60, miri_q=1, miri_t=6, asan_t=3, miri_ops=30, miriflags="") + trait_shards(seed, tier),
+                require={"traits.comparisons": 100000, "c17.monitored_drops": 10000, "c15.box_drop_checks": 10000},
                 assumptions=ASSUME_COLL)
